@@ -395,3 +395,11 @@ h_op!(c09_t_eq_bvdyn1s_f128x2, 12, bvdyn1(anylen(10)), f128x2(anylen(256)), wit_
 h_pc!(c09_t_pc_f128x2_bvd2s, 12, f128x2(anylen(256)), bvd2(anylen(10)), wit_sym, 8);
 h_op!(c09_t_eq_bvd2s_f32x2, 12, bvd2(anylen(10)), f32x2(anylen(64)), wit_sym, 8, ==, m_eq);
 h_op!(c09_t_eq_bvd2s_fuszx2, 12, bvd2(anylen(10)), fuszx2(anylen(128)), wit_sym, 8, ==, m_eq);
+
+// ---- heap Bv *longer than the Bvf's capacity* but numerically small (length must not matter) ----
+h_pc!(c09_q_pc_bvdyn1s_f8x1, 12, bvdyn1(anylen(10)), f8x1(anylen(8)), wit_sym, 8);
+h_pc!(c09_q_pc_f8x1_bvdyn1s, 12, f8x1(anylen(8)), bvdyn1(anylen(10)), wit_sym, 8);
+h_op!(c09_q_lt_bvdyn1s_f8x1, 12, bvdyn1(anylen(10)), f8x1(anylen(8)), wit_sym, 8, <, m_lt);
+h_op!(c09_q_eq_bvdyn1s_f8x1, 12, bvdyn1(anylen(10)), f8x1(anylen(8)), wit_sym, 8, ==, m_eq);
+h_pc!(c09_q_pc_bvdyn3c130_f64x1c64, 132, bvdyn3(130), f64x1(64), wit_conc, 64);
+h_op!(c09_t_ge_f64x1c64_bvdyn3c130, 132, f64x1(64), bvdyn3(130), wit_conc, 64, >=, m_ge);
